@@ -28,8 +28,15 @@
 from __future__ import annotations
 
 import dataclasses
-from dataclasses import dataclass
+from dataclasses import dataclass, field
 from typing import Optional, Dict, List, Any
+
+
+def decode_bool(value: Any) -> bool:
+  """Decodes a configuration value documented as `true | false`"""
+  if not isinstance(value, bool):
+    raise ValueError(f"Invalid value '{value}'. Expect: true or false.")
+  return value
 
 
 class ModuleConfiguration:
@@ -87,7 +94,7 @@ class ModuleConfiguration:
 class GeneralConfiguration(ModuleConfiguration):
   """TT general configuration"""
   log_level: Optional[str] = "INFO"
-  progress_bar: Optional[bool] = True
+  progress_bar: Optional[bool] = field(default=True, metadata={"decoder": decode_bool})
   document_lang: Optional[str] = None
 
   @classmethod
